@@ -176,6 +176,9 @@ FAMILIES = [
     Family('InfState15', attrs={'execution_recursion_detector': Obj('Detector'),
                                 'recursion_detector': Obj('RecDet')}),
     Family('RecDet', fields={'pushed_nodes': Seq(_PN)}),
+    Family('LCtx', attrs={'tree_node': _PN, 'inference_state': Obj('LState'), 'parent_context': Opt(Obj('LCtx'))},
+           methods={'get_value': FnSpec('Context.get_value', ret=ANY, pure=True)}),
+    Family('LState', fields={'inferred_element_counts': DictT(_PN, INT)}, attrs={'builtins_module': ANY}),
 ]
 
 def _region_from_import(func):
@@ -228,7 +231,172 @@ _goto_import = Contract(
           '(exception escapes) confirms the violation',
 )
 
-CONTRACTS = [_push, _pop, _wrapper, _exec_allowed, _goto_import]
+# ------------------------------------------------------------------ memoisation that cuts recursion (jedi/inference/cache.py)
+def _region_memo(func):
+    """the decision `if key in memo: ... else: ...` of the memoising wrapper (cache lookup and key construction before it
+    are plumbing)"""
+    for s_ in func.body:
+        if isinstance(s_, ast.If) and ast.unparse(s_.test) == 'key in memo':
+            return [s_]
+    return None
+
+
+def _call_memoised(V, st, self_val, args, kwargs, node):
+    """the memoised function, abstract: obligation at the call = the default is ALREADY stored under this key (a
+    re-entrant request for the same key, through any cycle of definitions, then returns it instead of recursing);
+    the function may run nested memoised calls (other keys come and go), may raise anything"""
+    import z3
+    from pyvc.values import MExc, fresh, SV
+    from pyvc.calls import add_effect
+    g = V.eval_spec_bool('implies(default is not _NO_DEFAULT, key in memo and memo[key] == default)', st)
+    V.oblige(st, g, 'call-pre', 'the recursion default is stored under the key BEFORE the memoised function is entered', node)
+    add_effect(V, st, 'compute', node)
+    # nested calls use other keys: this key's slot is untouched, everything else is unknown afterwards
+    memo = st.env['memo']
+    key = st.env['key']
+    from pyvc.types import sort_of
+    new = fresh(memo.t, 'memo_after')
+    had = V.eval_spec_bool('key in memo', st)
+    hv = V.eval_spec('memo.get(key)', st)
+    V.bind_target(ast.Name(id='memo', ctx=ast.Store()), new, st, node)
+    st.fact(V.eval_spec_bool('key in memo', st) == had)
+    st.fact(z3.Implies(had, V.eval_spec('memo.get(key)', st).z == hv.z))
+    bad = st.fork()
+    if V.feasible(bad.pc):
+        V.exc_out.append((bad, MExc('BaseException', [], origin='function')))
+    return fresh(ANY, 'rv')
+
+
+def _replay_memo(inp):
+    """the real decorator around a function that asks for itself again (a definition cycle) and, in the second
+    scenario, raises after that"""
+    from pyvc.replay import run_real
+    from jedi.inference.cache import _memoize_default
+
+    def scenario(raises):
+        class IS:
+            pass
+
+        class Obj:
+            pass
+        o = Obj()
+        o.inference_state = IS()
+        o.inference_state.memoize_cache = {}
+        log = []
+
+        @_memoize_default(default='DEFAULT')
+        def f(obj, n):
+            log.append('enter')
+            if len(log) > 5:
+                raise RecursionError('re-entered without seeing the default')
+            log.append(('inner', f(obj, n)))
+            if raises and log.count('enter') == 1:
+                raise ValueError('computation failed')
+            return 'RESULT'
+        first = run_real(lambda: f(o, 1))
+        n1 = len(log)
+        second = run_real(lambda: f(o, 1))
+        return {'first': first.get('value', first.get('cls', [''])[0]), 'log1': log[:n1],
+                'second': second.get('value', second.get('cls', [''])[0]), 'entered_again': len(log) > n1}
+    out = run_real(lambda: {'ok': scenario(False), 'failing': scenario(True)})
+    return {}, out
+
+
+_memo = Contract(
+    id='C15._memoize_default.wrapper', prop='C15',
+    clause='memoisation that stores a default before computing: a hit returns the stored value without entering the '
+           'function; on a miss the default (when there is one) is stored under the key BEFORE the function is entered '
+           '(re-entry sees it), the function is entered exactly once, its result replaces the default and is returned; '
+           'when the function raises, the default does not stay behind as if it were a result',
+    file='jedi/inference/cache.py', qualname='_memoize_default.func.wrapper', region=_region_memo,
+    params={'obj': ANY, 'args': ANY, 'kwargs': ANY}, free={'memo': DictT(ANY, ANY), 'key': ANY, 'default': ANY,
+                     'function': FnSpec('function', impl=_call_memoised, assumed=False)},
+    ret=ANY, raises={'BaseException': None},
+    ensures=[
+        'implies(key in memo, result == memo[key] and "compute" not in EFFECTS and NEW_memo == memo)',
+        'implies(key not in memo, key in NEW_memo and NEW_memo[key] == result and EFFECTS == ["compute"])',
+    ],
+    ensures_exc=['implies(default is not _NO_DEFAULT, key not in NEW_memo)', 'key not in memo'],
+    notes='block contract on the hit/miss decision; the function is abstract (may raise, may run nested memoised calls '
+          'on other keys)',
+    witness={}, replay=_replay_memo, concrete_only=True, witness_library=[{}],
+    concrete_ensures=[
+        # a cycle sees the default once, the result is stored and served without entering again
+        'result["ok"] == {"first": "RESULT", "log1": ["enter", ("inner", "DEFAULT")], "second": "RESULT", '
+        '"entered_again": False}',
+        # a failed computation leaves nothing behind: the next request computes again
+        'result["failing"]["first"] == "ValueError" and result["failing"]["entered_again"] '
+        'and result["failing"]["second"] == "RESULT"',
+    ],
+)
+
+# ------------------------------------------------------------------ per-node cap (jedi/inference/syntax_tree.py)
+_body_abs = FnSpec('func', params=[('context', Obj('LCtx'))], ret=ANY, pure=False, raises=['Exception'], varargs=True,
+                   assumed=False, effects=['run-body'], modifies=[('LState', 'inferred_element_counts')],
+                   ensures=['context.inference_state.inferred_element_counts.get(context.tree_node, 0) >= '
+                            'old(context.inference_state.inferred_element_counts.get(context.tree_node, 0))'],
+                   note='the wrapped inference function: abstract; nested inferences only ever count upwards')
+
+
+def _call_body(V, st, self_val, args, kwargs, node):
+    from pyvc.calls import call_spec
+    return call_spec(V, _body_abs, None, args[:1], {}, st, node)
+
+
+def _replay_limit(inp):
+    """the real decorator around a counting body: how often is the body entered for one node?"""
+    from pyvc.replay import run_real
+    from jedi.inference import syntax_tree as stree
+    calls = []
+
+    class IS:
+        pass
+
+    class Ctx:
+        parent_context = object()
+
+        def get_value(self):
+            return None
+    state = IS()
+    state.inferred_element_counts = {}
+    state.builtins_module = object()
+    ctx = Ctx()
+    ctx.tree_node = 'NODE'
+    ctx.inference_state = state
+    wrapped = stree._limit_value_infers(lambda context, *a, **k: calls.append(1) or 'VALUE')
+    res = [wrapped(ctx) for _ in range(inp['times'])]
+    out = run_real(lambda: {'entered': len(calls), 'refused': sum(1 for r in res if r is stree.NO_VALUES),
+                            'count': state.inferred_element_counts.get('NODE')})
+    return {'TIMES': inp['times']}, out
+
+
+_limit = Contract(
+    id='C15._limit_value_infers.wrapper', prop='C15',
+    clause='per-node cap: every request to infer in a context is counted exactly once on its tree node, and once the '
+           'count exceeds the cap (300; for the builtins module 100 times more) the wrapped function is NOT entered and '
+           'nothing is returned - so the work per node is bounded whatever the program',
+    file='jedi/inference/syntax_tree.py', qualname='_limit_value_infers.wrapper',
+    params={'context': Obj('LCtx'), 'args': ANY, 'kwargs': ANY},
+    free={'func': FnSpec('func', impl=_call_body, assumed=False)},
+    families=['LCtx', 'LState', 'PNode'], ret=ANY,
+    ensures=[
+        'implies("run-body" not in EFFECTS, context.inference_state.inferred_element_counts[context.tree_node] == '
+        'old(context.inference_state.inferred_element_counts.get(context.tree_node, 0)) + 1)',
+        'implies(old(context.inference_state.inferred_element_counts.get(context.tree_node, 0)) >= 300 * 100, '
+        'result == NO_VALUES and "run-body" not in EFFECTS)',
+        'implies(old(context.inference_state.inferred_element_counts.get(context.tree_node, 0)) >= 300 and not '
+        '(context.parent_context is None and context.get_value() is context.inference_state.builtins_module), '
+        'result == NO_VALUES and "run-body" not in EFFECTS)',
+        'implies(old(context.inference_state.inferred_element_counts.get(context.tree_node, 0)) < 300, '
+        '"run-body" in EFFECTS)',
+    ],
+    witness={}, replay=_replay_limit, concrete_only=True, witness_library=[{'times': 1}, {'times': 300}, {'times': 305}],
+    concrete_ensures=['result["entered"] == min(TIMES, 300)', 'result["refused"] == max(0, TIMES - 300)',
+                      'result["count"] == TIMES'],
+    notes='the cap value 300 is the one the property\'s anchor names; re-tuning it is reported',
+)
+
+CONTRACTS = [_push, _pop, _wrapper, _exec_allowed, _goto_import, _memo, _limit]
 
 
 # ---------------------------------------------------------------- structural: guards in place
@@ -438,6 +606,11 @@ TRUSTED = ['module-level limits are read from the current source (re-tuning a co
 
 
 def register(reg):
+    import z3
+    from pyvc.values import SV
+    import pyvc.types as T
+    reg.names['_NO_DEFAULT'] = SV(ANY, z3.Const('_NO_DEFAULT', T.AnySort))
+    reg.names['NO_VALUES'] = SV(ANY, z3.Const('NO_VALUES', T.AnySort))
     NW = Obj('NameW')
     reg.names['unite'] = FnSpec('unite', params=[('iterable', Seq(Seq(NW)))], ret=Seq(NW), pure=True, assumed=True,
                                 note='jedi.common.unite: the union of the given name collections')
